@@ -100,45 +100,7 @@ fn run(case: &Case, out: &mut Out) {
                 let sent = tx.send_listeners(&l);
                 let obs = match sent {
                     Err(_) => vec![ts("err"), ts("send")],
-                    Ok(()) => match rx.receive_listeners() {
-                        Ok(got) => {
-                            let all: Vec<(SocketAddr, RawFd)> = got.http.iter().chain(got.tls.iter()).chain(got.tcp.iter()).chain(got.udp.iter()).cloned().collect();
-                            let mut paired = all.len() == total;
-                            for (i, (ad, fd)) in all.iter().enumerate() {
-                                if i >= total || *ad != addrs[i] || inode(*fd) != inos[i] {
-                                    paired = false;
-                                }
-                            }
-                            let o = vec![ts("ok"), tn(got.http.len()), tn(got.tls.len()), tn(got.tcp.len()), tn(got.udp.len()), tbool(paired)];
-                            if !paired || got.http.len() != n[0] || got.tls.len() != n[1] || got.tcp.len() != n[2] || got.udp.len() != n[3] {
-                                out.viol("manifest-pairing", &format!("received listeners are not the sent (address, socket) pairs in order: sent {:?}, got {}/{}/{}/{}", n, got.http.len(), got.tls.len(), got.tcp.len(), got.udp.len()));
-                            }
-                            for (_, fd) in all {
-                                unsafe { libc::close(fd) };
-                            }
-                            o
-                        }
-                        Err(e) => {
-                            let class = match e {
-                                ScmSocketError::DecodeError(_) => "decode",
-                                ScmSocketError::ListenersCountInconsistent { .. } => "inconsistent",
-                                ScmSocketError::Receive(_) => "receive",
-                                ScmSocketError::WrongSocketAddress { .. } => "addr",
-                                _ => "other",
-                            };
-                            if total <= MAX_FDS_OUT {
-                                out.viol("manifest-lost", &format!("hand-over of {} listeners (<= MAX_FDS_OUT = {}) failed on the receiving side: {} (manifest of {} bytes, receive buffer {} bytes)", total, MAX_FDS_OUT, class, manifest_len(&addrs), MAX_BYTES_OUT));
-                            }
-                            // receive_listeners does not close the descriptors the kernel already installed when
-                            // it fails: close them here so that the driver itself does not run out of descriptors
-                            for fd in probe..probe + 600 {
-                                if unsafe { libc::fcntl(fd, libc::F_GETFD) } >= 0 {
-                                    unsafe { libc::close(fd) };
-                                }
-                            }
-                            vec![ts("err"), ts(class)]
-                        }
-                    },
+                    Ok(()) => receive_and_observe(&rx, probe, &addrs, &inos, &n, total, total, true, out),
                 };
                 out.obs(&obs);
                 for f in fds {
@@ -147,8 +109,129 @@ fn run(case: &Case, out: &mut Out) {
                 drop(x);
                 drop(y);
             }
+            // raw <nh> <nt> <nc> <nu> <nfds> <cut> <addr>... : the manifest of the addresses, its last <cut> bytes
+            // removed (the length prefix still announces them), with <nfds> descriptors (not necessarily as many
+            // as there are addresses)
+            "raw" => {
+                let n: Vec<usize> = (0..4).map(|i| a[i].n() as usize).collect();
+                let total: usize = n.iter().sum();
+                let (nfds, cut) = (a[4].n() as usize, a[5].n() as usize);
+                let addrs: Vec<SocketAddr> = a[6..].iter().map(|t| String::from_utf8_lossy(t.b()).parse().unwrap()).collect();
+                let mut body = vec![];
+                let mut k = 0;
+                for (fam, cnt) in n.iter().enumerate() {
+                    for _ in 0..*cnt {
+                        let s = addrs[k].to_string();
+                        body.push(((fam + 1) * 8 + 2) as u8);
+                        body.push(s.len() as u8);
+                        body.extend_from_slice(s.as_bytes());
+                        k += 1;
+                    }
+                }
+                let mut msg = vec![];
+                let mut l = body.len();
+                loop {
+                    if l < 128 { msg.push(l as u8); break; }
+                    msg.push((l % 128 + 128) as u8);
+                    l /= 128;
+                }
+                msg.extend_from_slice(&body);
+                msg.truncate(msg.len() - cut.min(body.len()));
+                let fds: Vec<RawFd> = (0..nfds).map(|_| unsafe { libc::socket(libc::AF_INET, libc::SOCK_STREAM | libc::SOCK_CLOEXEC, 0) }).collect();
+                let inos: Vec<u64> = fds.iter().map(|f| inode(*f)).collect();
+                let (x, y) = UnixStream::pair().unwrap();
+                let mut rx = ScmSocket::new(y.as_raw_fd()).unwrap();
+                rx.set_blocking(false).unwrap();
+                let probe = unsafe { libc::dup(0) };
+                unsafe { libc::close(probe) };
+                let obs = if raw_send(x.as_raw_fd(), &msg, &fds) {
+                    receive_and_observe(&rx, probe, &addrs, &inos, &n, total, nfds, false, out)
+                } else {
+                    vec![ts("err"), ts("send")]
+                };
+                out.obs(&obs);
+                for f in fds {
+                    unsafe { libc::close(f) };
+                }
+            }
             other => panic!("unknown op {other}"),
         }
+    }
+}
+
+/// `receive_listeners` on `rx`, then the observation: what came back, and how many descriptors the
+/// call left open in this process without handing them to the caller
+#[allow(clippy::too_many_arguments)]
+fn receive_and_observe(rx: &ScmSocket, probe: RawFd, addrs: &[SocketAddr], inos: &[u64], n: &[usize], total: usize, nfds: usize, honest: bool, out: &mut Out) -> Vec<Tok> {
+    let res = rx.receive_listeners();
+    let mut handed: Vec<RawFd> = vec![];
+    let obs = match &res {
+        Ok(got) => {
+            let all: Vec<(SocketAddr, RawFd)> = got.http.iter().chain(got.tls.iter()).chain(got.tcp.iter()).chain(got.udp.iter()).cloned().collect();
+            let mut paired = all.len() == total;
+            for (i, (ad, fd)) in all.iter().enumerate() {
+                if i >= total || *ad != addrs[i] || i >= inos.len() || inode(*fd) != inos[i] {
+                    paired = false;
+                }
+                handed.push(*fd);
+            }
+            if !paired || got.http.len() != n[0] || got.tls.len() != n[1] || got.tcp.len() != n[2] || got.udp.len() != n[3] {
+                out.viol("manifest-pairing", &format!("received listeners are not the sent (address, socket) pairs in order: sent {:?}, got {}/{}/{}/{}", n, got.http.len(), got.tls.len(), got.tcp.len(), got.udp.len()));
+            }
+            vec![ts("ok"), tn(got.http.len()), tn(got.tls.len()), tn(got.tcp.len()), tn(got.udp.len()), tbool(paired)]
+        }
+        Err(e) => {
+            let class = match e {
+                ScmSocketError::DecodeError(_) => "decode",
+                ScmSocketError::ListenersCountInconsistent { .. } => "inconsistent",
+                ScmSocketError::Receive(_) => "receive",
+                ScmSocketError::WrongSocketAddress { .. } => "addr",
+                _ => "other",
+            };
+            if honest && total <= MAX_FDS_OUT && nfds == total {
+                out.viol("manifest-lost", &format!("hand-over of {} listeners (<= MAX_FDS_OUT = {}) failed on the receiving side: {} (manifest of {} bytes, receive buffer {} bytes)", total, MAX_FDS_OUT, class, manifest_len(addrs), MAX_BYTES_OUT));
+            }
+            vec![ts("err"), ts(class)]
+        }
+    };
+    // descriptors the kernel installed in this process during the receive that were neither handed to the caller
+    // nor closed: each keeps its listening socket open (bound, queueing connections nobody will accept)
+    let mut leaked = 0;
+    for fd in probe..probe + 600 {
+        if unsafe { libc::fcntl(fd, libc::F_GETFD) } >= 0 {
+            if !handed.contains(&fd) {
+                leaked += 1;
+            }
+            unsafe { libc::close(fd) };
+        }
+    }
+    if leaked > 0 {
+        out.viol("fd-leak", &format!("receive_listeners ({}) left {leaked} received descriptor(s) open and unreferenced in the receiving process ({nfds} sent, {} handed to the caller)", if res.is_ok() { "ok" } else { "failed" }, handed.len()));
+    }
+    let mut obs = obs;
+    obs.push(tn(leaked));
+    obs
+}
+
+/// raw sendmsg of `msg` with `fds` as SCM_RIGHTS (what a confused or hostile peer could send)
+fn raw_send(sock: RawFd, msg: &[u8], fds: &[RawFd]) -> bool {
+    unsafe {
+        let mut iov = libc::iovec { iov_base: msg.as_ptr() as *mut libc::c_void, iov_len: msg.len() };
+        let space = libc::CMSG_SPACE((fds.len() * std::mem::size_of::<RawFd>()) as u32) as usize;
+        let mut cbuf = vec![0u8; space.max(1)];
+        let mut mh: libc::msghdr = std::mem::zeroed();
+        mh.msg_iov = &mut iov;
+        mh.msg_iovlen = 1;
+        if !fds.is_empty() {
+            mh.msg_control = cbuf.as_mut_ptr() as *mut libc::c_void;
+            mh.msg_controllen = space as _;
+            let c = libc::CMSG_FIRSTHDR(&mh);
+            (*c).cmsg_level = libc::SOL_SOCKET;
+            (*c).cmsg_type = libc::SCM_RIGHTS;
+            (*c).cmsg_len = libc::CMSG_LEN((fds.len() * std::mem::size_of::<RawFd>()) as u32) as _;
+            std::ptr::copy_nonoverlapping(fds.as_ptr() as *const u8, libc::CMSG_DATA(c), fds.len() * std::mem::size_of::<RawFd>());
+        }
+        libc::sendmsg(sock, &mh, 0) == msg.len() as isize
     }
 }
 
